@@ -54,8 +54,9 @@ EXPLANATION = ("theorems over all operation sequences: each attendance invokes e
                "re-registration); other subscriptions untouched; invalid requests refused with the code of the first failing "
                "check; for histories in which consumers act from inside their callbacks (small-step machine, attendances "
                "nest): consecutive notifications of a subscription are at least its interval apart, the notification is "
-               "recorded before the callback runs, a cancelled subscription that no attendance under way has ahead is never "
-               "invoked again (full clause refuted: KF-C14-2), and with passive consumers the machine is the step model; "
+               "recorded before the callback runs, a cancelled subscription is never invoked again - also not by an attendance "
+               "under way that took its snapshot of the list before the cancellation (it looks the subscription up in the list "
+               "when its turn comes) -, and with passive consumers the machine is the step model; "
                "correspondence: responses, callback invocations with their arguments, the subscription list with its "
                "last-notified times, the consumer registry and the store compared after every operation")
 
@@ -1308,7 +1309,7 @@ def boundary_cases_react():
                        [{"op": "dereg_cons", "aid": 2}, {"op": "reg_cons", "aid": 2, "perms": [2]}],
                        [{"op": "reg_cons", "aid": 1, "perms": [1]}, sub(aid=1, nt=0)]):
             cases.append({"t0_utc_ms": t0, "ops": base + [sub(nt=nt, react=script), sub(aid=16, nt=nt)] + history()})
-    #    ... and a later one that is due in the same attendance (no interval: known finding KF-C14-2); the other consumer's
+    #    ... and a later one that is due in the same attendance (no interval: KF-C14-2, repaired by c68a573); the other consumer's
     #    registration ended and renewed by two consumers notified before it
     for nt in (None, 0, 1000, 2000):
         for script in ([{"op": "unsubscribe", "aid": 2, "sub": 5}], [{"op": "unsubscribe", "aid": 16, "sub": 5}]):
